@@ -161,6 +161,12 @@ type expectation struct {
 // decoded as an empty structure" (std/encoding Delegate), as far as it shows through C17.
 const knownOverrun = "params-length-overrun-decoded-as-empty"
 
+// knownBigDataset names the known finding "a status dataset whose encoding does not fit one
+// Data packet is never answered": makeStatusDataset publishes a single segment (its size test
+// counts buffers, not bytes), the over-long Data is dropped on its way out, and Interests for
+// further segments are ignored by every module.
+const knownBigDataset = "status-dataset-larger-than-one-packet"
+
 // strictOverrun switches the tolerance of that known finding off (used by the unit that
 // re-confirms the finding).
 var strictOverrun bool
